@@ -130,6 +130,27 @@ async fn serve_conn(inner: Arc<Inner>, sock: Io, conn_id: u64) {
     }
 }
 
+/// Same wait, for a response whose HEADERS are already out (reset is observed on the send stream).
+async fn wait_while_sending(inner: &Inner, send: &mut h2::SendStream<Bytes>, keep_waiting: impl Fn() -> bool) -> bool {
+    loop {
+        if inner.is_shutdown() {
+            return false;
+        }
+        if !keep_waiting() {
+            return true;
+        }
+        let reset = std::future::poll_fn(|cx| match send.poll_reset(cx) {
+            std::task::Poll::Ready(_) => std::task::Poll::Ready(true),
+            std::task::Poll::Pending => std::task::Poll::Ready(false),
+        })
+        .await;
+        if reset {
+            return false;
+        }
+        tokio::time::sleep(Duration::from_millis(5)).await;
+    }
+}
+
 async fn wait_while(inner: &Inner, respond: &mut h2::server::SendResponse<Bytes>, keep_waiting: impl Fn() -> bool) -> bool {
     loop {
         if inner.is_shutdown() {
@@ -327,6 +348,22 @@ async fn serve_stream(
             inner.update(idx, |r| r.phase = Phase::Stalled);
             wait_while(&inner, &mut respond, || !inner.stalls_released()).await;
             let _ = cmd.send(ConnCmd::Kill);
+            Outcome::Dropped
+        }
+        Decision::StallAfterHeaders | Decision::StallMidBody => {
+            inner.update(idx, |r| r.phase = Phase::Stalled);
+            match respond.send_response(grpc_headers(200), false) {
+                Ok(mut send) => {
+                    if decision == Decision::StallMidBody {
+                        // 3 of the 5 bytes of the length-prefixed message header
+                        let _ = send.send_data(Bytes::from_static(&[0, 0, 0]), false);
+                    }
+                    // silent on this stream; the connection keeps serving other streams
+                    wait_while_sending(&inner, &mut send, || !inner.stalls_released()).await;
+                    send.send_reset(h2::Reason::CANCEL);
+                }
+                Err(_) => {}
+            }
             Outcome::Dropped
         }
         Decision::CloseBeforeRead => unreachable!(),
